@@ -49,7 +49,7 @@ func (c *c47BPCase) shape() string {
 	return c.Kind + ":" + c.Flood + "-floods:" + role + ":" + c.Mode
 }
 
-func c47BPGen(g *vkit.Rand, id, i int) *c47BPCase {
+func c47BPGen(g *vkit.Rand, id, i int, quick bool) *c47BPCase {
 	c := &c47BPCase{ID: id}
 	// the 24 shapes (kind x flood direction x who closes x half/full) in rotation, the rest drawn
 	c.Kind = []string{"ws", "wss", "stream"}[i%3]
@@ -58,6 +58,9 @@ func c47BPGen(g *vkit.Rand, id, i int) *c47BPCase {
 	c.Mode = []string{"half", "full"}[(i/12)%2]
 	if c.Closer == c.Flood {
 		c.MB = []int{4, 4, 8, 8, 16, 32}[g.Intn(6)]
+		if quick && c.MB > 16 {
+			c.MB = 16
+		}
 	} else {
 		c.MB = 32
 	}
@@ -300,6 +303,10 @@ func (e *c47Env) runBP(c *c47BPCase) {
 		r.Count("bp_writer_closes_flood_stalled_before_drain", 1)
 	} else {
 		r.Count("bp_writer_closes_flood_absorbed_by_buffers", 1)
+	}
+	// the small receive buffer has done its job (a window of a few KB makes the drain extremely slow)
+	if tcp := rawTCP(rc); tcp != nil {
+		tcp.SetReadBuffer(4 << 20)
 	}
 	rc.SetReadDeadline(time.Now().Add(120 * time.Second))
 	got, bad, rerr := verifyStream(rr, c.ID, dir, total)
